@@ -340,6 +340,8 @@ class MonitoredFocusList(MonitoredList[_T], typing.Generic[_T]):
         if step < 0:
             # a descending slice covers the same positions as this ascending one
             start, stop, step = start + (num_removed - 1) * step, start + 1, -step
+        # a slice that ends before it starts is empty: nothing is removed, new items go in at start
+        stop = max(start, stop)
         if step == 1:
             if start + num_new_items <= focus < stop:
                 focus = stop
